@@ -109,3 +109,22 @@ Fixpoint loop_fuel_ret {S R : Type} (fuel : nat) (st : S) (body : S -> outcome (
       do c <- body st ;
       match c with Ret r => Val r | Cont st' => loop_fuel_ret fuel' st' body end
   end.
+
+(* the same with `break`: the body yields Cont st (next round) or Ret st (leave the loop with st);
+   the bound counts rounds (the condition is still evaluated when none is left) *)
+Fixpoint while_fuel_brk {S : Type} (fuel : nat) (st : S) (cond : S -> outcome bool)
+         (body : S -> outcome (ctl S S)) : outcome S :=
+  do c <- cond st ;
+  if (c : bool) then
+    match fuel with
+    | O => OutOfFuel
+    | Datatypes.S fuel' =>
+        do r <- body st ;
+        match r with Cont st' => while_fuel_brk fuel' st' cond body | Ret st' => Val st' end
+    end
+  else Val st.
+
+(* u128::leading_zeros; derived PartialEq of Matrix *)
+Definition clz128 (x : Z) : Z := if x =? 0 then 128 else 127 - Z.log2 x.
+Definition mat_eqb (x y : Z * Z * Z * Z * bool) : bool :=
+  (mat_0 x =? mat_0 y) && (mat_1 x =? mat_1 y) && (mat_2 x =? mat_2 y) && (mat_3 x =? mat_3 y) && Bool.eqb (mat_4 x) (mat_4 y).
